@@ -51,6 +51,16 @@ CHECKS = {
             "TLC checks OpensOnce / NothingAfterLost / DataInOrder / IdsDisjoint / UnexpectedRefused / NoInternal for listen-before/"
             "after-open, expected sets, half-closeable protocols, both sides opening; behaviours replayed on real Managers built "
             "with expected_subprotocols the way dilate() builds them; DilMidObs.tla decides", "3/C13"),
+    "C11": ("DilationL3.tla interprets the Manager, Connector and DilatedConnectionProtocol tables extracted from the tree (mailbox "
+            "control messages FIFO per sender, candidate links with handshake/KCM phases, eventual-queue turns, cuts observed by "
+            "either side first); TLC checks AtMostOneSelected / FollowerFollowsLeader / NoDeadlock (convergence under the "
+            "statement's proviso) / OnlyBenignInternal; behaviours are replayed on two real dilating wormholes (mailbox twin, "
+            "simulated TCP, Noise stand-in) with Manager/Connector state and selected link compared after every step; "
+            "DilationL3Obs.tla decides on per-step snapshots", "3/C11"),
+    "C17": ("DilationL3.tla with Stop enabled at every reachable Manager/Connector state: TLC checks NothingLeftAfterStop and the "
+            "liveness StopCompletes under fairness; behaviours (and every counterexample on the current tables) are replayed on "
+            "the full stack where Stop is a real w.close(); listeners / pending attempts / selected connection inspected on the "
+            "simulated fabric at the closed notification; a non-dilating peer must fail connect() with OldPeerCannotDilateError", "3/C17"),
     "C12": ("DilationL2.tla: token-stream model of one L2 direction (relay reply, prologue, Noise handshake, KCM, records) with one "
             "adversarial replacement at every position; TLC checks ManagerOnlyAfterKCM / NothingAfterFault / FaultDrops / "
             "CleanDelivers and enumerates 76 record classes (7 types x id/seqnum boundary values x payload lengths around the Noise "
@@ -128,6 +138,9 @@ NOTES = {
     "C10": "L2 connections are scripted at record granularity (byte-level loss is C12's concern: a partial frame is a lost frame); "
            "<=8 records and <=3 cuts in TLC/simulation",
     "C13": "runs over one reliable connection (C10 is the interface); <=2 subchannels, <=2 writes per end in TLC",
+    "C11": "<=4 links and <=2 cuts exhaustively (6 links in simulation); handshake progress per link is lock-step phases, byte-level "
+           "fragmentation is C12's; Noise stand-in; no relay",
+    "C17": "as C11; the mailbox connection stays up during shutdown (the closed notification needs it, as C08)",
     "C12": "noiseprotocol is not installed: harness/stubs/noise stands in (real ChaCha20-Poly1305, 65535-byte limit); truncated tokens "
            "and absurd length prefixes leave the receiver waiting and are not required to drop",
     "C15": "2 (thorough: 3) producers, <=4 transport signals in TLC; producers and the L2 connection are recording stand-ins, "
